@@ -170,6 +170,18 @@ def _from_lin(c: Fraction, d: dict) -> T:
     items = [(m, k) for m, k in d.items() if k != 0]
     if not items:
         return _mk("const", val=c)
+    # k1*ite(b, p1, q1) + k2*ite(b, p2, q2) = ite(b, k1*p1 + k2*p2, k1*q1 + k2*q2): small summands that test the same condition merge
+    ites = [(m, k) for m, k in items if m.op == "ite"]
+    if len(ites) >= 2:
+        by_cond = {}
+        for m, k in ites:
+            by_cond.setdefault(m.args[0].id, []).append((m, k))
+        for group in by_cond.values():
+            if len(group) >= 2 and all(size(m) <= 60 for m, _ in group):
+                cond = group[0][0].args[0]
+                merged = ite(cond, add(*[scale(m.args[1], k) for m, k in group]), add(*[scale(m.args[2], k) for m, k in group]))
+                rest = {m: k for m, k in items if all(m is not g for g, _ in group)}
+                return add(_from_lin(c, rest), merged)
     if c == 0 and len(items) == 1 and items[0][1] == 1:
         return items[0][0]
     items.sort(key=lambda mk: mk[0].id)
@@ -510,26 +522,25 @@ def fname_of(t: T):
 
 
 def _lift_ite(fn, u: T):
-    """fn(u) with the single if-then-else atom of u (u itself, or an atom of the linear combination / monomial u) lifted outside:
-    fn(u[ite(c, a, b)]) = ite(c, fn(u[a]), fn(u[b])).  Returns None when u has no or several such atoms (no blow-up)."""
-    if u.op not in ("ite", "add", "mul") or size(u) > 40:
-        return None  # only small arguments (a running maximum over a few prices, a clamp): big piecewise terms stay as they are
+    """fn(u) with the if-then-else atoms of u (u itself, or atoms of the linear combination / monomial u) lifted outside, when they
+    all test the same condition:  fn(u[ite(c, a1, b1), ite(c, a2, b2)]) = ite(c, fn(u[a1, a2]), fn(u[b1, b2])).
+    Returns None when u has no such atoms or atoms with different conditions (no blow-up), or when u is large."""
+    if u.op not in ("ite", "add", "mul") or size(u) > 60:
+        return None  # only small arguments (a running maximum over a few prices, a clamp, a hand-written log-sum-exp)
     if u.op == "ite":
         c, a, b = u.args
         return ite(c, fn(a), fn(b))
     cands = []
-    if u.op in ("add", "mul"):
-        for g in u.args:
-            if g.op == "ite":
-                cands.append(g)
-            elif g.op == "mul" and u.op == "add":
-                cands.extend(h for h in g.args if h.op == "ite")
-    if len(cands) != 1:
+    for g in u.args:
+        if g.op == "ite":
+            cands.append(g)
+        elif g.op == "mul" and u.op == "add":
+            cands.extend(h for h in g.args if h.op == "ite")
+    if not cands or any(g.args[0] is not cands[0].args[0] for g in cands):
         return None
-    g = cands[0]
-    c, a, b = g.args
+    c = cands[0].args[0]
     try:
-        return ite(c, fn(subst(u, {g: a})), fn(subst(u, {g: b})))
+        return ite(c, fn(subst(u, {g: g.args[1] for g in cands})), fn(subst(u, {g: g.args[2] for g in cands})))
     except (ZeroDivisionError, ValueError):
         return None  # a branch that is never taken need not be defined (e.g. 1/0 behind its own guard): leave the term as it is
 
@@ -600,24 +611,26 @@ def log(u) -> T:
         sp = _exp_split(u)
         if sp is not None:
             return add(sp[0], log(sp[1]))
-    if proper_sum and u.val[0] == 0:
+    if proper_sum and u.val[0] >= 0:
         # log(sum_i c_i exp(w_i) r_i) = w_* + log(sum_i c_i exp(w_i - w_*) r_i): one representative for all forms that differ by a common
         # shift of the exponents (log-sum-exp with and without the subtracted maximum).  The reference w_* is chosen by a key that is
         # invariant under a common shift (the differences w_i - w_*).
-        parts = []
+        parts = [(ZERO, const(u.val[0]))] if u.val[0] != 0 else []  # (a constant summand is c0 * exp(0))
         for m, c in zip(u.args, u.val[1]):
             sp = _exp_split(m)
             if sp is None:
                 parts = None
                 break
             parts.append((sp[0], scale(sp[1], c)))
-        if parts:
+        if parts and len(parts) >= 2:
             best = None
             for r, (wr, _) in enumerate(parts):
                 key = tuple(sorted(sub(w, wr).id for w, _ in parts))
                 if best is None or key < best[0]:
                     best = (key, r)
             wr, rr = parts[best[1]]
+            if wr is ZERO and not (rr.op == "const" and rr.val > 0 and rr.val != 1):
+                return _mk("app", (u,), "log")  # already relative to its reference exponent
             inner = add(*[mul(exp(sub(w, wr)), rest) for w, rest in parts])
             if rr.op == "const" and rr.val > 0 and rr.val != 1:
                 # the reference summand carries a positive rational weight k: log(k*(1 + ...)) = log(k) + log(1 + ...)
